@@ -517,6 +517,46 @@ def install(rec):
     orig_init = LO.__init__
 
     @functools.wraps(orig_init)
+    # ---- pairwise in-place routes: the network keeps its value ------------
+    def mk_inplace(entry, out_of):
+        def pre(self, *a, **k):
+            sn = Snap(self)
+            O = out_of(sn, self, *a, **k)
+            if O is None:
+                return None
+            return {"snap": sn, "O": tuple(O)}
+
+        def post(s, result, self, *a, **k):
+            sn, O = s["snap"], s["O"]
+            ref = sn.value(O)
+            if ref is None:
+                rec.count(entry, "value", "unreferenced")
+                return
+            after = Snap(self).value(O)
+            if after is None:
+                rec.check(entry, "value", False, mech=f"{entry}:outer_labels_lost",
+                          detail={"O": list(map(str, O)), "outer_after": list(map(str, self.outer_inds()))[:10]})
+                return
+            V, S = ref
+            ok, err, bound = close(after[0], V, max(S, after[1]), sn.eps, 1e4)
+            rec.check(entry, "value", ok, mech=f"{entry}:value",
+                      detail={"err": err, "bound": bound, "hyper": sn.hyper, "O": list(map(str, O))},
+                      sig=(entry, sn.sig()))
+        return attach.monitored(rec, entry, pre, post, fam="pair")
+
+    def out_default(sn, self, *a, **k):
+        return sn.G
+
+    def out_ind(sn, self, ind, output_inds=None, **k):
+        if output_inds is None:
+            return sn.G
+        if isinstance(output_inds, str):
+            output_inds = (output_inds,)
+        return tuple(output_inds)
+
+    attach.install(TN, "contract_between", mk_inplace("contract_between", out_default))
+    attach.install(TN, "contract_ind", mk_inplace("contract_ind", out_ind))
+
     def lo_init(self, tns, left_inds, right_inds, ldims=None, rdims=None,
                 optimize=None, backend=None, is_conj=False):
         shadow = None
@@ -857,6 +897,37 @@ def wl_tn_contract(rng, rec, tier):
     return {"spec": spec["tensors"], "exponent": tn.exponent, "calls": calls}
 
 
+def wl_pairwise(rng, rec, tier):
+    """contract a (hyper) network to completion pair by pair / index by index:
+    every intermediate network denotes the same value"""
+    hyper = rng.random() < 0.6
+    spec = gen.rand_tn_spec(rng, hyper=hyper, max_tensors=6)
+    tn = gen.build_tn(rng, spec, exponent=gen.rand_exponent(rng))
+    steps = []
+    for _ in range(8):
+        if tn.num_tensors < 2:
+            break
+        if rng.random() < 0.6:
+            tids = list(tn.tensor_map)
+            i, j = (int(q) for q in rng.choice(len(tids), size=2, replace=False))
+            ta = [t for t in tn.tensor_map[tids[i]].tags if len(tn.tag_map[t]) == 1]
+            tb = [t for t in tn.tensor_map[tids[j]].tags if len(tn.tag_map[t]) == 1]
+            if not ta or not tb:
+                break
+            steps.append(("between", ta[0], tb[0]))
+            if gen.attempt2(tn.contract_between, ta[0], tb[0]) is gen.REJECTED:
+                break
+        else:
+            inner = [ix for ix, tids in tn.ind_map.items() if len(tids) >= 2]
+            if not inner:
+                break
+            ix = gen.choice(rng, sorted(inner))
+            steps.append(("ind", ix))
+            if gen.attempt2(tn.contract_ind, ix) is gen.REJECTED:
+                break
+    return {"spec": spec["tensors"], "hyper": hyper, "steps": steps}
+
+
 def wl_dense_norm(rng, rec, tier):
     import quimb.tensor as qtn
     hyper = rng.random() < 0.2
@@ -1030,6 +1101,7 @@ def wl_1d(rng, rec, tier):
 WORKLOADS = [
     ("tensor_contract", 3, wl_tensor_contract),
     ("tn_contract", 5, wl_tn_contract),
+    ("pairwise", 2, wl_pairwise),
     ("dense_norm", 3, wl_dense_norm),
     ("linop", 3, wl_linop),
     ("oned", 2, wl_1d),
